@@ -6,6 +6,9 @@
 pub open spec fn ends_group(b: OpBatch, k: int) -> bool {
     exists|j: int| 0 <= j < 8 && (#[trigger] b.op_counts[j]) > 0 && csum(b.op_counts@, j) + b.op_counts[j] as int - 1 == k
 }
+/// opaque: the executor proofs go through lemma_stream_ops / lemma_stream_rows only, so a code change
+/// that breaks the stream fails a lemma precondition instead of sending the solver into unfolding
+#[verifier::opaque]
 pub open spec fn stream_upto(b: OpBatch, i: int) -> Seq<Operation>
     decreases i
 {
